@@ -777,10 +777,32 @@ def partial_order_stream(ctx):
         sfx = rng.choice(list(ops))
         fv = ['set', sorted(rng.sample(['a', 'b', 'c'], rng.randint(0, 2)))] if use_sets else rng.choice([['i', 1], ['f', float(1.5).hex()], ['nan']])
         cases.append({'tasks': tasks, 'filters': [[attr + sfx, fv]], 'via': rng.choice(['tasks', 'roots'])})
+    # membership filters over values that cannot be hashed (a list-valued custom attribute): `value in candidates` by ==
+    member_cases = []
+    for _ in range(30 if ctx.tier == 'quick' else 600):
+        tasks = [{'labels': rng.choice([['list', rng.sample(['ui', 'db', 'api'], rng.randint(0, 2))], ['s', rng.choice(['ui', 'db'])],
+                                        ['i', rng.randint(0, 2)]])} for _t in range(rng.randint(2, 6))]
+        cand = ['tuple', [rng.choice([['s', 'ui'], ['s', 'db'], ['i', 1], ['i', 0]]) for _c in range(rng.randint(1, 3))]]
+        member_cases.append({'tasks': tasks, 'filters': [['labels' + rng.choice(['_in_', '_not_in_']), cand]], 'via': rng.choice(['tasks', 'roots'])})
+    member_outs = []
+    for i in range(0, len(member_cases), 100):
+        member_outs += ctx.impl_run('c18x_impl', member_cases[i:i + 100])
+
+    def dec2(v):
+        return list(v[1]) if v[0] == 'list' else v[1]
+    for c, o in zip(member_cases, member_outs):
+        kw, fv = c['filters'][0]
+        cand = tuple(x[1] for x in fv[1])
+        neg = kw.endswith('_not_in_')
+        want = [i + 1 for i, t in enumerate(c['tasks']) if (dec2(t['labels']) in cand) != neg]
+        if o['code'] != 0:
+            ctx.failure('C18/unhashable/raised', 'filter %s over a list-valued attribute raised %s' % (kw, o.get('exc')), {'case': c, 'observed': o})
+        elif o['ret'] != want:
+            ctx.failure('C18/unhashable/selection', 'filter %s: selected %s, membership holds for %s' % (kw, o['ret'], want), {'case': c, 'observed': o})
     outs = []
     for i in range(0, len(cases), 100):
         outs += ctx.impl_run('c18x_impl', cases[i:i + 100])
-    stat = {'cases': len(cases), 'returned': 0, 'raised': 0, 'selected_some_not_all': 0}
+    stat = {'cases': len(cases), 'returned': 0, 'raised': 0, 'selected_some_not_all': 0, 'membership_over_unhashable_values': len(member_cases)}
     for c, o in zip(cases, outs):
         kw, fv = c['filters'][0]
         attr, sfx = kw[:-4], kw[-4:]
